@@ -405,6 +405,57 @@ func guardKind(cond ssa.Value, val bool) string {
 		}
 		return "!" + s
 	}
+	if ph, ok := cond.(*ssa.Phi); ok && ph.Type().String() == "bool" {
+		// a flag variable: the edge is taken when the flag has the value val, i.e. after one of the assignments of
+		// that constant; the kind is that of the conditions under which those assignments happen
+		var kinds []string
+		okAll := true
+		for i, e := range ph.Edges {
+			c, isC := e.(*ssa.Const)
+			if !isC || c.Value == nil {
+				// the flag takes the value of another condition on this edge
+				if e == ssa.Value(ph) {
+					continue
+				}
+				kinds = append(kinds, guardKind(e, val))
+				continue
+			}
+			if (c.Value.String() == "true") != val {
+				continue
+			}
+			pred := ph.Block().Preds[i]
+			fs := lastBranchFact(pred, ph.Block())
+			if len(fs) == 0 {
+				// unconditional jump: the innermost condition guarding the assigning block
+				gs := guardsOfBlockNoExpand(pred)
+				for _, cand := range gs {
+					inner := true
+					for _, other := range gs {
+						if other.If != cand.If && !other.If.Block().Dominates(cand.If.Block()) {
+							inner = false
+						}
+					}
+					if inner {
+						fs = []fact{cand}
+					}
+				}
+			}
+			if len(fs) == 0 {
+				kinds = append(kinds, "always")
+				continue
+			}
+			kinds = append(kinds, guardKind(fs[0].Cond, fs[0].Val))
+		}
+		if okAll && len(kinds) > 0 {
+			set := map[string]bool{}
+			for _, k := range kinds {
+				for _, part := range strings.Split(strings.TrimPrefix(k, "flag-set-on:"), ",") {
+					set[strings.TrimPrefix(part, "flag-set-on:")] = true
+				}
+			}
+			return "flag-set-on:" + strings.Join(sortedKeys(set), ",")
+		}
+	}
 	if cm, ok := normCmp(cond, val); ok {
 		desc := func(v ssa.Value) string {
 			if isNilConst(v) {
@@ -607,8 +658,12 @@ func runC01(c *Ctx) {
 	instrsOfU(writeTo, func(in ssa.Instruction) {
 		if st, ok := in.(*ssa.Store); ok && isFieldStore(st, "vnet.chunkUDP", "userData") {
 			o.Site(in.Pos(), "userData = %s", st.Val.String())
-			mk, isMk := origin(st.Val).(*ssa.MakeSlice)
-			if !isMk {
+			kind, mk := freshCopyKind(st.Val, func(v ssa.Value) bool { return sameOrigin(v, ssa.Value(payload)) })
+			if kind == "append" || kind == "clone" {
+				okCopy = true // a fresh slice filled with exactly the caller's bytes
+				return
+			}
+			if kind != "make" {
 				o.Fail(in.Pos(), "the chunk's payload is not a freshly allocated slice")
 				return
 			}
@@ -645,6 +700,12 @@ func runC01(c *Ctx) {
 			if isCall(in, "builtin.copy") {
 				a := in.(*ssa.Call).Call.Args
 				if _, isMk := rootOf(a[0]).(*ssa.MakeSlice); isMk && isFieldLoad(a[1], "vnet.chunkUDP", "userData") {
+					ok2 = true
+				}
+			}
+			// or a library/append copy stored as the clone's payload
+			if st, ok := in.(*ssa.Store); ok && isFieldStore(st, "vnet.chunkUDP", "userData") {
+				if k, _ := freshCopyKind(st.Val, func(v ssa.Value) bool { return isFieldLoad(v, "vnet.chunkUDP", "userData") }); k == "append" || k == "clone" {
 					ok2 = true
 				}
 			}
@@ -731,7 +792,7 @@ func runC01(c *Ctx) {
 	// R3 drop edges
 	o = c.Obl("R3", "vnet.drop-edges", "a datagram is dropped only on the enumerated edges (user filter refused, destination NIC not found, no parent, NAT refused/returned nothing, router stopped, queue full, not UDP, no socket bound, socket closed, receive queue full); any other drop edge loses an admissible datagram", 6)
 	allowed := map[*ssa.Function][]string{
-		pc: {"phi(blocked)", "helper:dynamic(vnet.Router.chunkFilters[])", "helper:dynamic", "!lookup(vnet.Router.nics)#1", "field(vnet.Router.parent)==nil", "(*vnet.networkAddressTranslator).translateOutbound#1!=nil", "(*vnet.networkAddressTranslator).translateOutbound#0==nil",
+		pc: {"flag-set-on:!dynamic(vnet.Router.chunkFilters[])", "!dynamic(vnet.Router.chunkFilters[])", "helper:dynamic(vnet.Router.chunkFilters[])", "helper:dynamic", "!lookup(vnet.Router.nics)#1", "field(vnet.Router.parent)==nil", "(*vnet.networkAddressTranslator).translateOutbound#1!=nil", "(*vnet.networkAddressTranslator).translateOutbound#0==nil",
 			"!(*vnet.chunkQueue).pop#1" /* nothing was dequeued */},
 		rpush:    {"field(vnet.Router.stopFunc)==nil", "!(*vnet.chunkQueue).push"},
 		rIn:      {"(*vnet.networkAddressTranslator).translateInbound#1!=nil"},
